@@ -84,6 +84,11 @@ pub struct Reflex {
     pub got_conn_close: bool,
     pub got_conn_close_ok: bool,
     pub chan_close_oks: Vec<u16>,
+    /// Channels the server has closed and not yet seen CloseOk for: like a real
+    /// broker, the reflex discards everything else the client sends on them.
+    pub closing_channels: std::collections::HashSet<u16>,
+    /// The server has sent Connection.Close: everything but CloseOk is discarded.
+    pub conn_closing: bool,
     pub custom: Option<Custom>,
 }
 
@@ -119,6 +124,8 @@ impl Default for Reflex {
             got_conn_close: false,
             got_conn_close_ok: false,
             chan_close_oks: Vec::new(),
+            closing_channels: Default::default(),
+            conn_closing: false,
             custom: None,
         }
     }
@@ -343,7 +350,34 @@ impl Reflex {
         }
     }
 
+    /// Note server-initiated closes contained in bytes about to be sent to the client.
+    pub fn note_server_bytes(&mut self, bytes: &[u8]) {
+        let mut pos = 0;
+        while let crate::wire::Env::Frame { ty, ch, payload_at, payload_len, total } = crate::wire::parse_envelope(&bytes[pos..]) {
+            if ty == crate::wire::T_METHOD && payload_len >= 4 {
+                let p = &bytes[pos + payload_at..pos + payload_at + 4];
+                if p == [0, 20, 0, 40] {
+                    self.closing_channels.insert(ch);
+                } else if p == [0, 10, 0, 50] && ch == 0 {
+                    self.conn_closing = true;
+                }
+            }
+            pos += total;
+            if pos >= bytes.len() {
+                break;
+            }
+        }
+    }
+
     pub fn on_frame(&mut self, f: &WFrame, out: &mut Vec<Vec<u8>>, end: &mut Option<InEnd>) {
+        // a peer that has sent Close discards everything but Close / CloseOk
+        let is_close_ok = matches!(f.method(), Some(AMQPClass::Channel(Ch::CloseOk(_))) | Some(AMQPClass::Connection(Cn::CloseOk(_))));
+        if (self.conn_closing || self.closing_channels.contains(&f.ch)) && !is_close_ok {
+            return;
+        }
+        if let Some(AMQPClass::Channel(Ch::CloseOk(_))) = f.method() {
+            self.closing_channels.remove(&f.ch);
+        }
         if let Some(mut c) = self.custom.take() {
             let handled = c(f, self, out, end);
             if self.custom.is_none() {
